@@ -10,10 +10,27 @@ from pyoak.node import NODE_REGISTRY
 
 from props.c04 import check_positions, deserialize
 
+from pyoak.origin import SOURCE_OPTIMIZED_SERIALIZATION_KEY, Source
+
 items = pickle.load(open(sys.argv[1], "rb"))
 out = []
+idx_ready = False
 for fmt, cname, payload, snap in items:
     try:
+        if fmt == "sources":
+            out.append(None)
+            sources = payload
+            continue
+        if fmt.startswith("idx:"):
+            if not idx_ready:
+                # documented protocol: the separately serialized sources are loaded (into an empty source
+                # registry, in serialization order) before the objects that refer to them by index
+                Source.clear_registry()
+                Source.load_serialized_sources(sources)
+                idx_ready = True
+            b = zoo._BY_NAME[cname].from_json(payload, serialization_options={SOURCE_OPTIMIZED_SERIALIZATION_KEY: True})
+            out.append(check_positions(snap, b, originals=None))
+            continue
         b = deserialize(zoo._BY_NAME[cname], fmt, payload)
         out.append(check_positions(snap, b, originals=None))
     except Exception as e:  # noqa
